@@ -193,3 +193,11 @@ Proof. exact ParMapMatcher.MSM.ms_accepts_sound_refuted. Qed.
 Print Assumptions C14_iterator_matcher_sound.
 Print Assumptions C14_stream_matcher_sound.
 Print Assumptions C14_sorted_buffer_matcher_refuted.
+
+(* Tie to the source: the Go functions the model transcribes still contain exactly the synchronisation operations
+   (select arms, channel operations, goroutine starts, timer/context/sync calls) the model accounts for.
+   Generated/Census.v is re-extracted from the Go source on every run (tools/gofacts/census.go). *)
+From Juniper Require Translated.CensusC14.
+Theorem C14_source_census : Translated.CensusC14.census_expected_C14.
+Proof. exact Translated.CensusC14.census_C14_ok. Qed.
+Print Assumptions C14_source_census.
